@@ -22,7 +22,53 @@ func (x *Exec) execCall(fr *frame, v ssa.Value, cc *ssa.CallCommon, st *State, r
 		args = append(args, x.val(fr, a, st))
 	}
 	fnv := x.val(fr, cc.Value, st)
-	return x.callWithArgs(fr, cc, fnv, args, st, reach, pos, v)
+	rv, nst := x.callWithArgs(fr, cc, fnv, args, st, reach, pos, v)
+	if fr.top && len(x.resultWant) > 0 {
+		if name := callsiteName(cc); name != "" {
+			for tg := range x.resultWant {
+				if x.siteMatch(fr.fn, tg, name, pos) {
+					x.callResults[tg] = capturedCall{rv: rv, sig: cc.Signature()}
+				}
+			}
+		}
+	}
+	return rv, nst
+}
+
+type capturedCall struct {
+	rv  sval
+	sig *types.Signature
+}
+
+// siteMatch: does the call (callee name, position) match target[@k]?  k is the ordinal, in
+// source order, among the calls of fn that match target.
+func (x *Exec) siteMatch(fn *ssa.Function, target, name string, pos token.Pos) bool {
+	want := 0
+	if i := strings.LastIndex(target, "@"); i > 0 {
+		fmt.Sscanf(target[i+1:], "%d", &want)
+		target = target[:i]
+	}
+	if !callsiteMatch(target, name) {
+		return false
+	}
+	if want == 0 {
+		return true
+	}
+	var sites []token.Pos
+	for _, b := range fn.Blocks {
+		for _, ins := range b.Instrs {
+			if ci, ok := ins.(ssa.CallInstruction); ok && callsiteMatch(target, callsiteName(ci.Common())) {
+				sites = append(sites, ins.Pos())
+			}
+		}
+	}
+	sort.Slice(sites, func(i, j int) bool { return sites[i] < sites[j] })
+	for i, p := range sites {
+		if p == pos {
+			return i+1 == want
+		}
+	}
+	return false
 }
 
 // callWithArgs performs a call; args exclude the receiver for invoke-mode
@@ -35,6 +81,15 @@ func (x *Exec) callWithArgs(fr *frame, cc *ssa.CallCommon, fnv sval, args []sval
 	}
 	if fr.top && x.ct != nil && len(x.ct.Callsites) > 0 && !x.errflow {
 		x.checkCallsites(fr, cc, args, st, reach, pos, resultOf)
+	}
+	if fr.top && len(x.callCount) > 0 {
+		if name := callsiteName(cc); name != "" {
+			for target, comp := range x.callCount {
+				if x.siteMatch(fr.fn, target, name, pos) {
+					st.set(comp, x.define("calls", "Int", "(+ "+st.get(comp)+" 1)"))
+				}
+			}
+		}
 	}
 	var key string
 	var callee *ssa.Function
@@ -495,6 +550,21 @@ func (x *Exec) applyContract(fr *frame, ct *Contract, callee *ssa.Function, args
 		x.inferredFieldFrames(ws, old, nst, reach)
 	} else if !ws.Top {
 		x.frameFacts(ct, pre, ws, old, nst, reach, false, "")
+	}
+	// call counters: the ghost is one more than before the call, whatever else the callee does
+	for _, g := range ct.Counts {
+		if _, ok := x.eng.ghosts[g]; !ok {
+			x.eng.specErrs = append(x.eng.specErrs, fmt.Sprintf("%s:%d: counts: unknown ghost %s", ct.File, ct.Line, g))
+			continue
+		}
+		c := "G_" + g
+		if _, ok := x.so.comps[c]; !ok {
+			x.so.addComp(c, x.eng.ghosts[g])
+		}
+		o := old.get(c)
+		n := x.freshConst(c+"_cnt", x.so.comps[c])
+		nst.m[c] = n
+		x.assume(reach, "(= "+n+" (+ "+o+" 1))")
 	}
 	// 4. results
 	res := x.freshResults(sig, nst, reach)
@@ -1589,6 +1659,11 @@ func (e *Engine) scanWrites(fn *ssa.Function, blocks []*ssa.BasicBlock) *WriteSe
 					// reachable (one level) from its arguments
 					e.externArgWrites(ws, cc)
 					continue
+				}
+				if ct != nil {
+					for _, g := range ct.Counts {
+						ws.add("G_" + g)
+					}
 				}
 				if callee != nil && len(callee.Blocks) > 0 && inRepoFn(callee) && (ct == nil || !ct.Assumed) {
 					sub := e.writeSet(callee)
